@@ -57,27 +57,50 @@ Section CheckProof.
   Qed.
 
   (* the reference "completely filled" test decides the region-level statement *)
+  Lemma members_In T j : In j (members H V ids T) <-> In j ids /\ elig H V j /\ tgt H V j = T.
+  Proof.
+    unfold members. rewrite filter_In, andb_true_iff, eligible_elig.
+    destruct (eid_eqb_spec (tgt H V j) T); intuition congruence.
+  Qed.
+  Lemma volsum_length l : (forall j, In j l -> eh j <= MH /\ ev j <= MV) ->
+    Z.of_nat (length (flat_map (units MH MV) l)) = volsum ids l.
+  Proof.
+    induction l as [|a r IH]; intros Z; [reflexivity|]. cbn [flat_map volsum fold_right].
+    rewrite app_length, Nat2Z.inj_add, IH by (intros j Hj; apply Z; now right).
+    destruct (Z a (or_introl eq_refl)). rewrite units_length by assumption. reflexivity.
+  Qed.
+
+  (* the reference "completely filled" test decides the region-level statement *)
   Lemma fullb_spec i : In i ids -> elig H V i -> (fullb H V ids (tgt H V i) = true <-> fullS H V inI (tgt H V i)).
   Proof.
     intros Hi [Eh Ev]. destruct (ids_zooms i Hi) as [Zh Zv]. set (T := tgt H V i).
     assert (TH : 0 <= eh T <= MH) by (unfold T; cbn; lia).
     assert (TV : 0 <= ev T <= MV) by (unfold T; cbn; lia).
-    pose proof (cover_cells_points MH MV (fun j => In j ids /\ elig H V j) T TH TV (fun j Hj => ids_zooms j (proj1 Hj))) as CP.
-    unfold fullb. fold MH MV. rewrite forallb_forall. split.
-    - intros F p Hp.
-      assert (F' : forall c, In c (units MH MV T) -> exists j, (In j ids /\ elig H V j) /\ In c (units MH MV j)).
-      { intros c Hc. pose proof (F c Hc) as Fc. apply existsb_exists in Fc. destruct Fc as (j & Hj & Hb).
-        apply andb_true_iff in Hb. destruct Hb as [Ej Cj]. apply eligible_elig in Ej. exists j. split; [auto|].
-        apply in_units in Hc; [|lia|lia]. destruct Hc as (E1 & E2 & _). destruct (ids_zooms j Hj).
-        apply (coversb_in_units MH MV j c E1 E2); [lia|lia|exact Cj]. }
-      destruct (proj1 CP F' p Hp) as (j & [Hj Ej] & Hjp). exists j. auto.
-    - intros F c Hc.
-      assert (F' : forall p, inR T p -> exists j, (In j ids /\ elig H V j) /\ inR j p).
-      { intros p Hp. destruct (F p Hp) as (j & Hj & Ej & Hjp). exists j. auto. }
-      destruct (proj2 CP F' c Hc) as (j & [Hj Ej] & Hcj). apply existsb_exists. exists j. split; [exact Hj|].
-      apply andb_true_iff. split; [now apply eligible_elig|].
-      apply in_units in Hc; [|lia|lia]. destruct Hc as (E1 & E2 & _). destruct (ids_zooms j Hj).
-      apply (coversb_in_units MH MV j c E1 E2); [lia|lia|exact Hcj].
+    assert (MZ : forall j, In j (members H V ids T) -> 0 <= eh j <= MH /\ 0 <= ev j <= MV).
+    { intros j Hj. apply members_In in Hj. now apply ids_zooms. }
+    pose proof (cover_cells_points MH MV (fun j => In j (members H V ids T)) T TH TV MZ) as CP.
+    assert (CB : forall c, In c (units MH MV T) ->
+              (existsb (fun j => coversb j c) (members H V ids T) = true <-> exists j, In j (members H V ids T) /\ In c (units MH MV j))).
+    { intros c Hc. apply in_units in Hc; [|lia|lia]. destruct Hc as (E1 & E2 & _). rewrite existsb_exists.
+      split; intros (j & Hj & Cj); exists j; (split; [exact Hj|]); destruct (MZ j Hj);
+        apply (coversb_in_units MH MV j c E1 E2); try lia; exact Cj. }
+    unfold fullb. fold MH MV. rewrite andb_true_iff, forallb_forall. split.
+    - intros [_ F] p Hp.
+      destruct (proj1 CP (fun c Hc => proj1 (CB c Hc) (F c Hc)) p Hp) as (j & Hj & Hjp).
+      apply members_In in Hj. exists j. tauto.
+    - intros F.
+      assert (F' : forall p, inR T p -> exists j, In j (members H V ids T) /\ inR j p).
+      { intros p Hp. destruct (F p Hp) as (j & Hj & Ej & Hjp). exists j. split; [|exact Hjp].
+        apply members_In. split; [exact Hj|]. split; [exact Ej|].
+        apply (tgt_of_point H V H0 V0 T j p); auto. }
+      pose proof (proj2 CP F') as Cov. split.
+      + (* volume: the cells of T are among the cells of its members, and no cell of T is listed twice *)
+        apply Z.leb_le. unfold vol. fold MH MV.
+        rewrite <- (cells_length MH MV T) by lia.
+        rewrite <- (volsum_length (members H V ids T)) by (intros j Hj; destruct (MZ j Hj); lia).
+        apply inj_le. apply NoDup_incl_length; [apply cells_NoDup|].
+        intros c Hc. apply cells_units in Hc. apply in_flat_map. now apply Cov.
+      + intros c Hc. apply (CB c Hc). now apply Cov.
   Qed.
 
   (* the reference list has exactly the members of the specification set *)
@@ -184,12 +207,11 @@ Section CheckProof.
     check_merge H V ids obs = true <-> NoDup obs /\ (forall o, In o obs <-> S H V inI o).
   Proof.
     unfold check_merge. rewrite !andb_true_iff, nodup_eids_spec, !set_eqb_spec. split.
-    - intros [[[ND E] _] _]. split; [exact ND|]. intros o. rewrite (E o). apply ref_spec.
+    - intros [[ND E] _]. split; [exact ND|]. intros o. rewrite (E o). apply ref_spec.
     - intros [ND E].
       assert (EM : forall o, In o obs <-> In o (merge_x H V ids)).
       { intros o. rewrite (E o). symmetry. apply (merge_is_S _ id_perm H V H0 V0 ids ids_wf). }
-      assert (Wobs : forall o, In o obs -> wfz o) by (intros o Ho; apply E in Ho; now apply S_zooms).
-      split; [split; [split|]|].
+      split; [split|].
       + exact ND.
       + intros o. rewrite (E o). symmetry. apply ref_spec.
       + apply region_eqb_spec. split; [|split].
@@ -204,12 +226,9 @@ Section CheckProof.
           -- intros (i & Hi & Ei & Hp). destruct (fullS_dec H V H0 V0 ids ids_wf i Hi Ei) as [F|NF].
              ++ exists (tgt H V i). split; [apply E; right; left; exists i; auto|]. split; [apply tgt_elig|now apply inR_tgt].
              ++ exists i. split; [apply E; right; right; auto|]. auto.
-      + intros o. unfold merge_x.
-        rewrite (merge_set_ext _ _ id_perm id_perm H V obs (merge_x H V ids) H0 V0 Wobs EM o).
-        unfold merge_x. rewrite (merge_idem _ _ id_perm id_perm H V ids H0 V0 ids_wf o). symmetry. apply EM.
   Qed.
 
-  (* what an accepted output satisfies, spelled out *)
+  (* what an accepted output satisfies, spelled out (the last clause is a consequence by C04_idempotent, not a run-time test) *)
   Corollary check_merge_sound obs : check_merge H V ids obs = true ->
     NoDup obs /\
     (forall o, In o obs <-> S H V inI o) /\
@@ -217,9 +236,14 @@ Section CheckProof.
     (forall o, In o (merge_x H V obs) <-> In o obs).
   Proof.
     intros C. pose proof C as C'. apply check_merge_correct in C'. destruct C' as [ND E].
-    unfold check_merge in C. rewrite !andb_true_iff in C. destruct C as [[[_ _] R] I].
+    unfold check_merge in C. rewrite !andb_true_iff in C. destruct C as [[_ _] R].
+    assert (EM : forall o, In o obs <-> In o (merge_x H V ids)).
+    { intros o. rewrite (E o). symmetry. apply (merge_is_S _ id_perm H V H0 V0 ids ids_wf). }
+    assert (Wobs : forall o, In o obs -> wfz o) by (intros o Ho; apply E in Ho; now apply S_zooms).
     split; [exact ND|]. split; [exact E|]. split.
     - now apply region_eqb_region.
-    - now apply set_eqb_spec.
+    - intros o. unfold merge_x.
+      rewrite (merge_set_ext _ _ id_perm id_perm H V obs (merge_x H V ids) H0 V0 Wobs EM o).
+      unfold merge_x. rewrite (merge_idem _ _ id_perm id_perm H V ids H0 V0 ids_wf o). symmetry. apply EM.
   Qed.
 End CheckProof.
